@@ -755,6 +755,12 @@ private:
 
   void spawnWorker(bool reserved = false)
   {
+    // The thread is created AND registered in _threads inside one critical section.
+    // The worker's first action is to take _mutex, so it cannot run a task, time out
+    // idle and look itself up in _threads before its entry exists. Registered after
+    // the fact, such a finished worker stayed in _threads for ever, counted against
+    // _maxSize, and later accepted tasks were never run.
+    std::lock_guard<std::mutex> lock(_mutex);
     std::thread t(
       [this]()
       {
@@ -936,7 +942,6 @@ private:
       });
     IORA_VERIF_YIELD("tp.spawn.created"); // the worker runs, its entry in _threads does not exist yet
 
-    std::lock_guard<std::mutex> lock(_mutex);
     auto threadId = t.get_id();
     _threads.emplace(threadId, std::move(t));
     if (reserved)
